@@ -123,8 +123,8 @@ def _solversim_check(prop: str, focus: str, profile_extra: Dict[str, Any], quick
 
 
 CHECKS = {
-    "C01": _solversim_check("C01", "C01", {}, 240, 12000, 100, 1800),
-    "C02": _solversim_check("C02", "C02", {"unsat_prob": 0.45, "clock_op_prob": 0.22, "fault_bias": {"fault_free_prob": 0.2, "z3_slow": 5, "clk_jump_fwd": 3}}, 240, 12000, 100, 1800),
+    "C01": _solversim_check("C01", "C01", {"derive_prob": 0.12, "derive_grammar_prob": 0.4}, 240, 12000, 100, 1800),
+    "C02": _solversim_check("C02", "C02", {"unsat_prob": 0.45, "clock_op_prob": 0.22, "fault_bias": {"fault_free_prob": 0.2, "z3_slow": 5, "clk_jump_fwd": 3}, "derive_prob": 0.12, "derive_grammar_prob": 0.4}, 240, 12000, 100, 1800),
     "C18": _solversim_check("C18", "C18", {"api_ops": True, "families": ["ambig", "ambig", "signed", "csv", "config"], "families_prob": 0.45}, 200, 8000, 110, 1800),
 }
 
@@ -280,7 +280,7 @@ def _choice_check(prop: str, quick, thorough):
             b_choice, b_solver = budget * 0.5, budget * 0.5
         stages = [
             ("choicesim", {"focus": prop, "cases": cases}, n_choice, b_choice),
-            ("solversim", {"focus": prop}, n_solver, b_solver),
+            ("solversim", {"focus": prop, "derive_prob": 0.3, "derive_grammar_prob": 0.6}, n_solver, b_solver),
         ]
         return driver.run_check(
             prop, tier, stages, None, 0, 0, wall=240.0, nproc_total=nproc,
@@ -399,8 +399,8 @@ def _repro_summary(lines):
             nontrivial.add(r.get("digest"))
         if "plan" in l:
             for p in l["plan"]["ops"][1:]:
-                for k in ("heap_objects", "gc", "import_order", "cwd", "env", "argv"):
-                    if p.get(k) not in (0, "default", [], None, {}):
+                for k in ("heap_objects", "gc", "import_order", "cwd", "env", "argv", "clock_rate", "stalls"):
+                    if p.get(k) not in (0, 0.0, "default", [], None, {}):
                         perts["perturb_" + k] = perts.get("perturb_" + k, 0) + 1
             if len(samples) < 3 and r.get("solutions", 0) >= 2:
                 sc = l["plan"]["scenario"]
@@ -409,7 +409,7 @@ def _repro_summary(lines):
     return {
         "evaluations": len(lines),
         "distinct_nontrivial": len(nontrivial),
-        "rule": "one evaluation = one scenario (generated grammar + constraint + solver settings, or a shipped formalization) solved k in {5,10,20,30} times by 2-3 fresh interpreters with identical hash seed and random seed under different perturbation schedules (heap ballast, GC mode, import order, epoch, cwd/HOME/COLUMNS/argv); verdict = all children print the same sequence (strings and tree shapes). Non-trivial = at least two solutions compared and no child lost; distinct = distinct digest of the reference child's solution sequence.",
+        "rule": "one evaluation = one scenario (generated grammar + constraint + solver settings, or a shipped formalization) solved k in {5,10,20,30} times by 2-3 fresh interpreters with identical hash seed and random seed under different perturbation schedules (heap ballast, GC mode, import order, epoch, clock speed and stalls between solve() calls - no timeout is configured -, cwd/HOME/COLUMNS/argv); verdict = all children print the same sequence (strings and tree shapes). Non-trivial = at least two solutions compared and no child lost; distinct = distinct digest of the reference child's solution sequence.",
         "samples": samples or [{"note": "none"}],
         "fresh_interpreters_started": children,
         "solutions_compared": solutions,
@@ -417,7 +417,7 @@ def _repro_summary(lines):
         "inconclusive": inconclusive,
         "faults_fired": dict(perts, **{"shared_" + k: v for k, v in z3f.items()}),
         "real_components": ["isla.* in fresh interpreters", "the genuine random module (seeded by random.seed)", "Z3 decision procedures", "CPython allocator / GC"],
-        "stubbed_components": ["Z3 wall-clock timeout -> rlimit budget", "kernel ASLR -> off + seeded heap ballast", "time in isla.solver -> constant"],
+        "stubbed_components": ["Z3 wall-clock timeout -> rlimit budget", "kernel ASLR -> off + seeded heap ballast", "time in isla.solver -> virtual clock (child 0: standing still; others: work-based rate and stalls)"],
     }
 
 
